@@ -328,8 +328,10 @@ def run_config(unit, cfgname, workdir, tier='quick', mutate=None, want_trace=Fal
     gi = ''
     if enforce and enforce != 'none':
         gi = 'goto-instrument --dfcc %s --enforce-contract %s' % (entry, enforce)
+        called = ctext + ''.join(getattr(unit, 'also', []))
         for r in cfg.get('replace', '').split():
-            gi += ' --replace-call-with-contract %s' % r
+            if re.search(r'\b' + re.escape(r) + r'\s*\(', called):   # a callee the cut no longer calls does not exist in the goto model
+                gi += ' --replace-call-with-contract %s' % r
         if loopc and sp.loops:
             gi += ' --apply-loop-contracts'
         if cfg.get('nondet_static') == 'yes':
